@@ -463,4 +463,178 @@ def evalModuleF : Env → List (Str × Str) → Option (List Int)
     | none => none
     | some v => (evalModuleF ((lowerS n, v) :: env) ms).map (v :: ·)
 
+
+/-! ### the emitted file blocks (wrapc/wrapf/wrapp `wrap_enum`) -/
+
+/-- What the emitters read besides the member formats. -/
+structure BlockCfg where
+  cfg       : Cfg
+  nsScope   : Str    -- fmt.namespace_scope of the enumeration (parent scope, class included)
+  scopeWord : Str    -- "" | "class" | "struct"  (`ast.scope`)
+  inClass   : Bool   -- parent.nodename == "class"
+  pyType    : Str    -- PY_PyTypeObject of the parent class
+  deriving Repr
+
+/-- C_enum = "{C_prefix}{C_name_scope}{enum_name}" -/
+def cEnumName (c : Cfg) : Str := c.cpre ++ c.ename
+
+/-- `output[-1] = output[-1][:-1]` -/
+def stripLastChar : List Str → List Str
+  | [] => []
+  | [l] => [l.dropLast]
+  | l :: ls => l :: stripLastChar ls
+
+def cMemberItem (o : Out) : Str :=
+  match o.cvalue with
+  | some t => o.cname ++ " = ".toList ++ t ++ [',']
+  | none => o.cname ++ [',']
+
+/-- The strings wrapc.wrap_enum appends to `enum_impl` (`+`/`-` are the indent
+    directives of `write_lines`). -/
+def cItems (b : BlockCfg) (os : List Out) : List Str :=
+  stripLastChar ([[], "//  ".toList ++ b.nsScope ++ b.cfg.ename,
+      "enum ".toList ++ cEnumName b.cfg ++ " {+".toList] ++ os.map cMemberItem) ++ ["-};".toList]
+
+def fParamPrefix : Str := "integer(C_INT), parameter :: ".toList
+
+def fMemberItem (o : Out) : Str := fParamPrefix ++ o.fname ++ " = ".toList ++ o.fvalue
+
+/-- The strings wrapf.wrap_enum appends to `fileinfo.enum_impl`. -/
+def fItems (b : BlockCfg) (os : List Out) : List Str :=
+  [[], (if b.scopeWord.isEmpty then "!  enum ".toList
+        else "!  enum ".toList ++ b.scopeWord ++ [' ']) ++ b.nsScope ++ b.cfg.ename] ++ os.map fMemberItem
+
+def castOpen : Str := "static_cast<long>(".toList
+
+/-- C++ expression written for a member by wrapp.wrap_enum: the enumerator
+    itself (qualified; a scoped enumerator is cast). -/
+def pyValueExpr (b : BlockCfg) (n : Str) : Str :=
+  if b.scopeWord.isEmpty then b.nsScope ++ n
+  else castOpen ++ b.nsScope ++ b.cfg.ename ++ "::".toList ++ n ++ [')']
+
+/-- The strings wrapp.wrap_enum appends to `enum_impl`. -/
+def pyItems (b : BlockCfg) (ms : List Member) : List Str :=
+  if b.inClass then
+    ["\n{+".toList, "// enumeration ".toList ++ b.cfg.ename, "PyObject *tmp_value;".toList] ++
+    ms.map (fun m =>
+      "tmp_value = PyLong_FromLong(".toList ++ pyValueExpr b m.1 ++ ");\n".toList ++
+      "PyDict_SetItemString((PyObject*) ".toList ++ b.pyType ++ ".tp_dict, \"".toList ++ m.1 ++
+      "\", tmp_value);\n".toList ++ "Py_DECREF(tmp_value);".toList) ++
+    ["-}".toList]
+  else
+    [[], "// enum ".toList ++ b.nsScope ++ b.cfg.ename] ++
+    ms.map (fun m => "PyModule_AddIntConstant(m, \"".toList ++ m.1 ++ "\", ".toList ++ pyValueExpr b m.1 ++
+      ");".toList)
+
+/-- `write_lines` on items that use only the `+` (trailing) and `-` (leading)
+    directives: the physical lines (engine E-lines, property C13, has the full
+    model; the tie compares this rendering with the generated files). -/
+def indentOf (n : Nat) : Str := (List.replicate n "    ".toList).flatten
+
+def renderItems : Nat → List Str → List Str
+  | _, [] => []
+  | n, l :: ls =>
+    if l.isEmpty then [] :: renderItems n ls
+    else if l.head? = some '-' then (indentOf (n - 1) ++ l.drop 1) :: renderItems (n - 1) ls
+    else if l.getLast? = some '+' then (indentOf n ++ l.dropLast) :: renderItems (n + 1) ls
+    else (indentOf n ++ l) :: renderItems n ls
+
+/-- the enum block of the generated C header (file scope, indent 0) -/
+def cBlock (b : BlockCfg) (os : List Out) : List Str := renderItems 0 (cItems b os)
+/-- the parameter block of the generated Fortran module (module body, indent 1) -/
+def fBlock (b : BlockCfg) (os : List Out) : List Str := renderItems 1 (fItems b os)
+
+/-! ### reading the blocks back -/
+
+def trimL (s : Str) : Str := s.dropWhile (· = ' ')
+
+def startsWith (p s : Str) : Bool := s.take p.length == p
+
+def isBlankOrCommentC (l : Str) : Bool := (trimL l).isEmpty || startsWith "//".toList (trimL l)
+
+/-- `enumerator` or `enumerator = constant-expression` -/
+def parseMemberC (l : Str) : Option (Str × Option Str) :=
+  let t := trimL l
+  let name := t.takeWhile isWordChar
+  if name.isEmpty then none
+  else match t.dropWhile isWordChar with
+    | [] => some (name, none)
+    | ' ' :: '=' :: ' ' :: v => some (name, some v)
+    | _ => none
+
+def stripComma (l : Str) : Option Str := if l.getLast? = some ',' then some l.dropLast else none
+
+/-- enumerator-list: separated by commas, no trailing comma (C89) -/
+def parseMembersC : List Str → Option (List (Str × Option Str))
+  | [] => none
+  | [l] => (parseMemberC l).map ([·])
+  | l :: ls =>
+    match stripComma l, parseMembersC ls with
+    | some l', some r => (parseMemberC l').map (· :: r)
+    | _, _ => none
+
+/-- `enum identifier {` -/
+def isEnumHead (l : Str) : Bool :=
+  let t := trimL l
+  startsWith "enum ".toList t &&
+    (let r := t.drop 5
+     isIdent (r.takeWhile isWordChar) && r.dropWhile isWordChar == " {".toList)
+
+/-- Split off the body lines: everything before the closing `};`. -/
+def bodyBeforeClose : List Str → Option (List Str)
+  | [] => none
+  | [l] => if trimL l == "};".toList then some [] else none
+  | l :: ls => (bodyBeforeClose ls).map (l :: ·)
+
+/-- The C compiler's reading of the block: comments and blank lines skipped,
+    `enum name {`, the enumerator list, `};`. -/
+def parseBlockC (lines : List Str) : Option (List (Str × Option Str)) :=
+  match lines.dropWhile isBlankOrCommentC with
+  | h :: rest => if isEnumHead h then (bodyBeforeClose rest).bind parseMembersC else none
+  | [] => none
+
+def evalBlockC (lines : List Str) : Option (List Int) := (parseBlockC lines).bind (evalHeaderC [] 0)
+
+def isBlankOrCommentF (l : Str) : Bool := (trimL l).isEmpty || startsWith "!".toList (trimL l)
+
+/-- `integer(C_INT), parameter :: name = initialization-expr` -/
+def parseMemberF (l : Str) : Option (Str × Str) :=
+  let t := trimL l
+  if startsWith fParamPrefix t then
+    let r := t.drop fParamPrefix.length
+    let name := r.takeWhile isWordChar
+    if name.isEmpty then none
+    else match r.dropWhile isWordChar with
+      | ' ' :: '=' :: ' ' :: v => some (name, v)
+      | _ => none
+  else none
+
+/-- every line that is not blank or a comment must be a parameter statement -/
+def parseBlockF : List Str → Option (List (Str × Str))
+  | [] => some []
+  | l :: ls =>
+    if isBlankOrCommentF l then parseBlockF ls
+    else match parseMemberF l, parseBlockF ls with
+      | some m, some r => some (m :: r)
+      | _, _ => none
+
+def evalBlockF (lines : List Str) : Option (List Int) := (parseBlockF lines).bind (evalModuleF [])
+
+
+/-! ### what the Python wrapper's value expression denotes -/
+
+def stripPrefix (p s : Str) : Option Str := if startsWith p s then some (s.drop p.length) else none
+
+/-- C++ name lookup of the expression written by wrapp.wrap_enum, relative to
+    the scope the enumeration is declared in: which enumerator of this
+    enumeration does it name?  (`nsScope` leads to the declaring scope; a scoped
+    enumerator is additionally qualified by the enumeration and cast.) -/
+def pyDenotes (b : BlockCfg) (expr : Str) : Option Str :=
+  if b.scopeWord.isEmpty then stripPrefix b.nsScope expr
+  else
+    (stripPrefix castOpen expr).bind fun r1 =>
+    (stripPrefix b.nsScope r1).bind fun r2 =>
+    (stripPrefix (b.cfg.ename ++ "::".toList) r2).bind fun r3 =>
+    if r3.getLast? = some ')' then some r3.dropLast else none
+
 end Shroud.Enum
